@@ -113,10 +113,16 @@ impl DecisionTracker {
 
     /// Returns the next decision in the log for which unit propagation still needs to run
     ///
-    /// Side-effect: the decision will be marked as propagated
-    pub(crate) fn next_unpropagated(&mut self) -> Option<Decision> {
-        let &decision = self.stack[self.propagate_index..].iter().next()?;
+    /// The decision only counts as propagated once [`Self::mark_propagated`] is
+    /// called: when propagation stops at a conflict halfway through the clauses
+    /// that watch the decision, and the decision survives the backtracking that
+    /// follows, the remaining clauses still have to be visited.
+    pub(crate) fn next_unpropagated(&self) -> Option<Decision> {
+        self.stack.get(self.propagate_index).copied()
+    }
+
+    /// Marks the decision returned by [`Self::next_unpropagated`] as propagated.
+    pub(crate) fn mark_propagated(&mut self) {
         self.propagate_index += 1;
-        Some(decision)
     }
 }
